@@ -22,8 +22,9 @@ PROP = "C02"
 
 CUSTOM = {
     # name: (python reducer, the built-in columns it is a function of, that function on exact values)
-    "double_sum": (lambda z: z.sum() * 2, ["sum"], lambda s: 2 * s["sum"]),
-    "range": (lambda z: z.max() - z.min(), ["max", "min"], lambda s: s["max"] - s["min"]),
+    # (the reducers compute in float64: a user reducer that overflows a narrow integer dtype is not the library's fault)
+    "double_sum": (lambda z: float(z.astype("f8").sum()) * 2, ["sum"], lambda s: 2 * s["sum"]),
+    "range": (lambda z: float(z.max()) - float(z.min()), ["max", "min"], lambda s: s["max"] - s["min"]),
     "n": (lambda z: len(z), ["count"], lambda s: s["count"]),
     "sumsq_over_n": (lambda z: float((z.astype("f8") ** 2).sum()) / len(z), ["var", "mean"],
                      lambda s: s["var"] + s["mean"] ** 2),
